@@ -93,8 +93,13 @@ def run_case(spec):
         for o1, i1, o2, i2 in pair[spec['lo']:spec['hi']]:
             hooks = {'before_signal': [o1, i1], 'after_signal': [o2, i2]}
             for stubborn in (False, True):
-                for req in ('signal:15', 'signal:10', 'signal:9', 'kill', 'kill:9', 'stop'):
+                for req in ('signal:15', 'signal:10', 'signal:9', 'kill', 'kill:9', 'stop',
+                            # a real-time signal: a number without a name in Python's signal module
+                            'signal:35', 'kill:35'):
                     run_one(mk(hooks, stubborn, 2), [req], res)
+                # ... and as the watcher's own stop signal
+                for req in ('stop', 'restart', 'kill'):
+                    run_one(mk(hooks, stubborn, 2, stop_signal=35), [req], res)
                 # the same gate on the stop_children path (the worker has a child, both are signalled)
                 for req in ('kill', 'kill:10', 'stop'):
                     run_one(mk(hooks, stubborn, 2, stop_children=True), [req], res)
@@ -196,9 +201,11 @@ def refused_sethook_case(spec, res):
     res.sample = {'case': 'refused set hooks.X, then start', 'hook': hook}
 
 
-def mk(hooks, stubborn, np_, autostart=True, stop_children=False):
+def mk(hooks, stubborn, np_, autostart=True, stop_children=False, stop_signal=None):
     wc = {'name': 'a', 'numprocesses': np_, 'graceful_timeout': 0.3, 'autostart': autostart,
-          'hooks': hooks, 'beh': [{'15': ['ignore']}] if stubborn else [{}]}
+          'hooks': hooks, 'beh': [{'15': ['ignore'], '35': ['ignore']}] if stubborn else [{}]}
+    if stop_signal is not None:
+        wc['stop_signal'] = stop_signal
     if stop_children:
         wc['stop_children'] = True
         wc['kids'] = [{'beh': {}}]
@@ -342,7 +349,7 @@ def _one(w, h, reqs, res):
                 break
             res.obs['kill_requests_judged'] += 1
             bs = hooks.get('before_signal')
-            stopsig = int(arg) if arg else 15
+            stopsig = int(arg) if arg else int(conf.get('stop_signal', 15))
             for pid in live0:
                 sigs = [e[3] for e in k.log[l0:] if e[1] == 'signal' and e[2] == pid and e[4] == 'circus']
                 if bs is not None and bs[0] == 'false' and stopsig != 9 and stopsig in sigs[:1]:
